@@ -31,6 +31,8 @@ Enc(v) == CASE v.k = "q" -> <<"q", v.n, v.d>>
             [] v.k = "c" -> <<"c", v.c>>
             [] v.k = "a" -> <<v.f>> \o [i \in DOMAIN v.a |-> Enc(v.a[i])]
 EncSeq(s) == [i \in DOMAIN s |-> Enc(s[i])]
+EncData(s) == EncSeq(s)
+EncParOf(par) == IF "k" \in DOMAIN par THEN [par EXCEPT !.k = Enc(@)] ELSE par
 EncT(node, t) == [node |-> node, dims |-> t.dims, data |-> EncSeq(t.data)]
 EncIns(ins) == [op |-> ins.op, args |-> ins.args,
                 par |-> IF "k" \in DOMAIN ins.par THEN [ins.par EXCEPT !.k = Enc(@)] ELSE ins.par]
